@@ -224,15 +224,15 @@ def c05_dialect_frames(rep, tier, coverage, ctx):
     d = workdir("C05-dialects")
     rnd = random.Random(seed() + 5)
     acc = ctx["accepted"]
-    if tier != "thorough":
-        # shapes with stars of two relations and exclusions first, then a sample of the rest
-        ops = lambda x: {s["op"] for s in x[0]["steps"]}
-        both = [x for x in acc if {"exclude", "join"} <= ops(x)]
-        excl = [x for x in acc if "exclude" in ops(x) and "join" not in ops(x)]
-        jn = [x for x in acc if "join" in ops(x) and "exclude" not in ops(x)]
-        rest = [x for x in acc if not ({"exclude", "join"} & ops(x))]
-        pick = lambda l, n: l if len(l) <= n else rnd.sample(l, n)
-        acc = pick(both, 300) + pick(excl, 200) + pick(jn, 150) + pick(rest, 150)
+    # shapes with stars of two relations and exclusions first, then a sample of the rest
+    ops = lambda x: {s["op"] for s in x[0]["steps"]}
+    both = [x for x in acc if {"exclude", "join"} <= ops(x)]
+    excl = [x for x in acc if "exclude" in ops(x) and "join" not in ops(x)]
+    jn = [x for x in acc if "join" in ops(x) and "exclude" not in ops(x)]
+    rest = [x for x in acc if not ({"exclude", "join"} & ops(x))]
+    pick = lambda l, n: l if len(l) <= n else rnd.sample(l, n)
+    m = 1 if tier != "thorough" else 8
+    acc = pick(both, 300 * m) + pick(excl, 200 * m) + pick(jn, 150 * m) + pick(rest, 150 * m)
     progs, expect = [], {}
     for i, (p, names) in enumerate(acc):
         q = copy.deepcopy(p); q["id"] = f"f{i}"; q["decl"] = True
